@@ -520,11 +520,22 @@ class ndarray(object):
             self._set(i, _cast_cell(v, kind))
 
     # -- shape manipulation
+    def _f_contiguous(self):
+        return self.ndim > 1 and not self._contiguous() and self.transpose()._contiguous()
+
     def reshape(self, *shape, **kw):
+        order = kw.pop('order', 'C')
         if kw:
             raise ModelGap("reshape kwargs")
         if len(shape) == 1 and isinstance(shape[0], (tuple, list)):
             shape = tuple(shape[0])
+        if order == 'A':
+            order = 'F' if self._f_contiguous() else 'C'
+        if order == 'F':
+            shape = tuple(int(x) for x in shape)
+            return self.transpose().reshape(tuple(reversed(shape))).transpose()
+        if order != 'C':
+            raise ValueError("order must be one of 'C', 'F', 'A'")
         shape = tuple(int(s) for s in shape)
         if shape.count(-1) > 1:
             raise ValueError("can only specify one unknown dimension")
